@@ -74,6 +74,14 @@ Definition HOrd (a b : nat) : hc := HB (AddOrder a b).
 Definition HDelL (a : nat) (x : Z) (b : nat) (y : Z) : hc := HB (DelLink (a, x) (b, y)).
 Definition HDelN (n : nat) : hc := HB (DelNode n).
 Definition HMeta (n : nat) (m : N) : hc := HSetMeta n m.
+(* insert_hugr of Hugr(o) + basic calls *)
+Definition bc := bcmd opinfo N.
+Definition BAdd (o : opinfo) (p : option nat) (k : option Z) (m : N) : bc := AddNode o p k m.
+Definition BLink (a : nat) (x : Z) (b : nat) (y : Z) : bc := AddLink (a, x) (b, y).
+Definition BOrd (a b : nat) : bc := AddOrder a b.
+Definition BDelL (a : nat) (x : Z) (b : nat) (y : Z) : bc := DelLink (a, x) (b, y).
+Definition BDelN (n : nat) : bc := DelNode n.
+Definition HIns (o : opinfo) (src : list bc) (p : option nat) : hc := HInsert o 0%N src p.
 (* a store state rebuilt from the public queries of a HUGR without deleted nodes: the node table, and the
    forward dictionary in links() order with the sub-offsets linked_ports shows *)
 Definition Gd (o : opinfo) (p : option nat) (i k : Z) (ch : list nat) (m : N) : node_data opinfo N :=
